@@ -130,6 +130,7 @@ func (e *c10Env) judgeShot(name, input string, s c10Shot, res c10ShotResult, all
 	}
 	class := c10ShotClass(reqType, res)
 	e.x.r.Distribution["http-answer:"+class]++
+	e.notePos("http:"+name, res.alloc, len(s.body))
 	if res.alloc > e.maxSrvAlloc {
 		e.maxSrvAlloc, e.maxSrvWhat = res.alloc, name+" "+c10Short(input)
 	}
